@@ -627,6 +627,13 @@ class MySQLParser(SQLParser):
                     join_type=JoinType.INNER_JOIN,
                     implicit=True)
 
+    @staticmethod
+    def _quoted_alias(value):
+        # a quoted alias is one name: dots inside the quotes do not split it
+        if value == '':
+            raise ParsingException('Empty name in identifier')
+        return Identifier(parts=[value])
+
     @_('from_table AS identifier',
        'from_table identifier',
        'from_table AS dquote_string',
@@ -639,7 +646,7 @@ class MySQLParser(SQLParser):
                 raise ParsingException('Alias can not contain multiple parts (dots).')
             entity.alias = p.identifier
         if hasattr(p, 'dquote_string'):
-            entity.alias = Identifier(p.dquote_string)
+            entity.alias = self._quoted_alias(p.dquote_string)
         return entity
 
     @_('LPAREN query RPAREN')
@@ -703,7 +710,7 @@ class MySQLParser(SQLParser):
         if col.alias:
             raise ParsingException(f'Attempt to provide two aliases for {str(col)}')
         if hasattr(p, 'dquote_string'):
-            alias = Identifier(p.dquote_string)
+            alias = self._quoted_alias(p.dquote_string)
         else:
             alias = p.identifier
         col.alias = alias
